@@ -277,6 +277,31 @@ def check_block_layers(ctx, prog, tag):
                        "BlockState::Replace is not built by prepare_blocks from the same instructions_and_blocks() "
                        "result as the instructions that are entered", f.where(c.bb))
     ctx.floor("C06.I6 with_execution_state call sites" + tag, n6, 3)
+    # -- I8: "is the output discarding?" is asked about the capture that receives the writes.  Blocks are skipped
+    # (CallBlock) while the output discards; a real capture opened inside a discarding region ({% set %} / import in
+    # a child template) must render its blocks.  `is_discarding` and the function that selects the write target
+    # must both look at the top of the capture stack only.
+    OUT = "minijinja::output::Output"
+    if prog.has_fn(OUT + "::is_discarding"):
+        tops = ("last", "last_mut", "deref", "deref_mut")
+        watchers = [prog.fn(OUT + "::is_discarding")]
+        for g_, bb_, w_, p_ in query.field_accessors(prog, OUT, "target"):
+            if w_ and g_ not in watchers and (g_.trait or "") == "" and not any(
+                    st.get("rv", {}).get("k") == "agg" and st["rv"].get("adt") == OUT for _, _, st in g_.all_stmts()):
+                watchers.append(g_)
+        for g_ in watchers:
+            used = set()
+            for h_ in [g_] + prog.closures_of(g_.path):
+                for c in h_.calls():
+                    if c.args and any("capture_stack" in o.proj for o in flow.origins(
+                            h_, c.args[0], through_calls=lambda k: 0 if k.name.endswith(("::deref", "::deref_mut", "::iter", "::iter_mut")) else None)):
+                        used.add(c.name.split("::")[-1])
+            extra = sorted(used - set(tops) - {"push", "pop"})
+            ctx.ob("C06.I8.discard-test-and-write-target-look-at-the-same-capture", tag + g_.path.split("::")[-1],
+                   bool(used & {"last", "last_mut"}) and not extra,
+                   "%s reads the capture stack through %s: only the innermost capture decides where text goes and "
+                   "whether it is discarded; an enclosing discard must not hide a capture opened inside it" % (
+                       g_.path.split("::")[-1], sorted(used)), g_.loc)
     # -- I7: a block is rendered where it is defined.  Whether the template ends up extending another one is only known
     # at run time (conditional / dynamic extends), so the code generator must emit the CallBlock for every block it
     # registers, on every path; the interpreter skips it once a parent is loaded.
